@@ -72,6 +72,10 @@ class Translator:
         if name in OPAQUE_NAME_METHODS:
             a = args[0]
             return ctx.fresh(("name", id(a)), PASCAL, "Name")
+        if name == "format_case_style":
+            # case converters inspect characters; on the PascalCase-looking identifiers of this model they are the
+            # identity for the C type-name styles (declared assumption; every model is confirmed by gcc)
+            return args[0]
         f = self.methods.get((cls, name)) if cls else None
         f = f or self.by_name.get(name)
         if f is None:
@@ -140,6 +144,8 @@ class Translator:
         if isinstance(e, ast.Name):
             if e.id in env:
                 return env[e.id]
+            if e.id[:1].isupper():
+                return ("class", e.id)  # a definition class used as a selector (e.g. of a case style)
             raise Unsupported("free name " + e.id)
         if isinstance(e, ast.JoinedStr):
             parts = []
